@@ -79,8 +79,16 @@ func runReal(rec vlib.Recorder, s realScenario) {
 	r.nMainFailed = len(e.failed)
 	if ok {
 		r.idle = true
-		if !e.drv.done() || e.link.busy() {
-			rec.Inconclusive(fmt.Sprintf("real scenario %s: engine idle but the harness (driver stub / link) still holds messages", s.Name))
+		up, down := e.link.pending()
+		if !e.drv.done() || up > 0 {
+			rec.Inconclusive(fmt.Sprintf("real scenario %s: engine idle but the harness (driver stub / link towards the CP) still holds messages", s.Name))
+			r.idle = false
+			ok = false
+		} else if down > 0 {
+			// every stall of the link has ended; the head MapWGReq cannot be
+			// delivered because a CU's incoming buffer stays full
+			r.viol(r.L+"|cu-stopped-accepting-work-groups", fmt.Sprintf("engine idle at cycle %d: a MapWGReq waits in the CP's port because a compute unit does not take requests from its port any more; launches %v unanswered",
+				e.nowCycle(), e.unanswered()), nil)
 			r.idle = false
 			ok = false
 		}
